@@ -154,7 +154,10 @@ pub fn assemble(file: &[u8], ops: &[Op], flags: u8) -> Result<Assembled, String>
                             }
                             if adam {
                                 let n = r.output_line_size(w);
-                                png::expand_interlaced_row(&mut canvas, line, &data[..n.min(data.len())], &png::Adam7Info::new(pass, l, w), bits);
+                                // read_row fills a caller buffer sized for the full width; a caller that cannot know the width of the
+                                // pass hands the whole buffer on - the surplus must be ignored (seeded change C13_8)
+                                let given = if *op == Op::ReadRow { &data[..] } else { &data[..n.min(data.len())] };
+                                png::expand_interlaced_row(&mut canvas, line, given, &png::Adam7Info::new(pass, l, w), bits);
                             } else {
                                 let at = l as usize * line;
                                 if at + line <= canvas.len() && (l as u32) < sh {
